@@ -175,7 +175,7 @@ theorem C10_merge_all_self_deadlock_witness :
     with two subscribers, the second behind a `finalize_threads`; thread 0 emits
     and completes, thread 1 emits, thread 2 unsubscribes subscriber 0 and asks `len`. -/
 example : (C10_system (.subject (.cons (.leaf 0) (.cons (.fin (.leaf 1)) .nil)))
-    [[.here (.deliver .next 1), .here (.deliver .term 2)],
+    [[.here (.deliver .next 1), .here (.deliver (.term false) 2)],
      [.here (.deliver .next 3)],
      [.sub 0 (.here .slotUnsub), .here .size]]).prog 2 =
     [.acq 2, .rel 2, .acq 0, .acq 1, .rel 1, .rel 0] := by decide
